@@ -4,6 +4,8 @@
   C14-WMC   catalog/storage mutators (create_table/view/schema, drop_entry, insert_table, drop_table, append_batch, flush)
             are called only from the catalog operators, engine bootstrap / extension registration and the catalog itself —
             never from resolver, binder, planner or optimizer (a statement that fails before execution changes nothing)
+  C14-EFFECT each catalog operator (CREATE SCHEMA/VIEW/TABLE, CTAS, INSERT, DROP) transitively reaches only the mutators of its
+            own statement kind (frozen table OP_EFFECTS): a CREATE never drops, an INSERT never touches the catalog
   C14-ISO   the per-session temp database is built in DatabaseContext::new from fresh MemoryCatalog::empty() /
             StorageManager::empty() values with AccessMode::ReadWrite; the system catalog is created ReadOnly
   C14-SEG   ConcurrentColumnCollection::flush pushes the segment and advances flushed_row_count inside one critical section
@@ -172,10 +174,74 @@ def rule_seg(facts):
     return r
 
 
+# statement kind → the only catalog/storage effects its operator may (transitively) reach. Frozen from the pinned tree, where the
+# reachable set of every operator equals this table exactly: a CREATE never removes an entry or a table's storage, an INSERT
+# never touches the catalog, a DROP never creates or appends.
+OP_EFFECTS = {
+    "create_schema::PhysicalCreateSchema": {"Catalog>::create_schema", "MemorySchema::create_entry"},
+    "create_view::PhysicalCreateView": {"Schema>::create_view", "MemorySchema::create_entry"},
+    "create_table::PhysicalCreateTable": {"Schema>::create_table", "StorageManager::insert_table", "MemorySchema::create_entry"},
+    "create_table_as::PhysicalCreateTableAs": {"Schema>::create_table", "StorageManager::insert_table", "MemorySchema::create_entry",
+                                               "DataTable::append_batch", "DataTable::flush"},
+    "insert::PhysicalInsert": {"DataTable::append_batch", "DataTable::flush"},
+    "drop::PhysicalDrop": {"Catalog>::drop_entry", "MemorySchema::drop_entry", "StorageManager::drop_table"},
+}
+
+
+def rule_effect(facts, cg):
+    r = RuleResult("C14-EFFECT", "each catalog operator reaches (transitively, over the call graph) only the catalog/storage mutators of its "
+                   "own statement kind", floor=6)
+    prefix = "glaredb_core::execution::operators::catalog::"
+    import re
+    seen_ops = set()
+    for n in cg.nodes:
+        seen_ops.update(re.findall(r"operators::catalog::(\w+::Physical\w+)", n))
+    for op in sorted(seen_ops - set(OP_EFFECTS)):
+        roots = [n for n in cg.nodes if prefix + op in n]
+        reach = cg.reachable(roots)
+        ms = sorted({m for n in reach for m in MUTATORS if n.endswith(m)})
+        r.inst({"operator": op, "effects": ms, "allowed": "none (not a mutating statement kind)"}, not ms)
+        for m in ms:
+            r.violate(prefix + op, "effect:" + m.rsplit("::", 1)[-1], f"operator {op} is not in the statement-kind table but reaches the mutator {m}; "
+                      "a non-mutating statement would change the catalog or table contents", "", 0)
+    for op, allowed in OP_EFFECTS.items():
+        roots = [n for n in cg.nodes if prefix + op in n]
+        if not roots:
+            r.missing_anchor(op)
+            continue
+        r.functions.update(roots)
+        # reach with parents, to name the path
+        parent = {x: None for x in roots}
+        st = list(roots)
+        while st:
+            x = st.pop()
+            for y in cg.edges.get(x, ()):
+                if y not in parent:
+                    parent[y] = x
+                    st.append(y)
+        ms = {}
+        for n in parent:
+            for m in MUTATORS:
+                if n.endswith(m):
+                    ms.setdefault(m, n)
+        bad = sorted(set(ms) - allowed)
+        r.inst({"operator": op, "effects": sorted(ms), "allowed": sorted(allowed)}, not bad)
+        for m in bad:
+            path, x = [], ms[m]
+            while x is not None:
+                path.append(x.replace("glaredb_core::", ""))
+                x = parent[x]
+            root = path[-1]
+            r.violate(prefix + op, "effect:" + m.rsplit("::", 1)[-1],
+                      f"{op} reaches {m} (path: {' <- '.join(path[:6])}): a statement of this kind would remove/alter objects or rows it "
+                      "does not name", cg.nodes.get("glaredb_core::" + root, {}).get("file", ""), cg.nodes.get("glaredb_core::" + root, {}).get("line", 0))
+    return r
+
+
 def run(ctx):
     facts = ctx["facts"]
     cg = CallGraph(facts)
-    return [rule_ro(facts, cg), rule_wmc(facts, cg), rule_iso(facts), rule_seg(facts)]
+    return [rule_ro(facts, cg), rule_wmc(facts, cg), rule_effect(facts, cg), rule_iso(facts), rule_seg(facts)]
 
 
 CLAIM = {
